@@ -4,7 +4,7 @@ from .. import cfg
 from ..anchors import dispatch_cone, is_user_code
 from ..effects import norm
 from ..facts import strip_generics, keyname, AnchorLost
-from ..flow import flow, fold, strip, deep_strip, show, mentions
+from ..flow import flow, fold, strip, deep_strip, show, mentions, deps
 from .util import (call_sites, foreign, exactly_once, or_terms, result_gates, closure_constructions, adt_constructions,
                    type_instances)
 
@@ -178,6 +178,62 @@ def c13b(F):
             ln = [fold(e) for e in fl.term_arg(pb, 2)]
             res.append((bool(ln) and all(v == 0 for v in ln), "probe-zero-length@%s" % keyname(m0.name),
                         "a %s() made while registering carries no data (zero-length probe): the reader never sees more bytes than deliveries" % pci.symbol, pt["sp"], {"length": ln}))
+        # the descriptor is vetted before it is handed to the registry: skipping the O_NONBLOCK switch (whose fcntl also rejects an invalid
+        # descriptor) is decided by an accept-list on the probe's outcome — equality edges of tests of the probe's result / its error —,
+        # never by "everything else". With those accepting edges removed, no registration is reachable from the probe without passing fcntl.
+        from ..conds import switch_edges as _swe
+        probes = [pb for (pb, pt, pci) in call_sites(F, m, lambda ci: ci.kind == "foreign" and ci.symbol in ("send", "sendto", "getsockopt", "fstat", "getsockname"))
+                  if not m.blocks[pb].get("dead")]
+        regs_ = [rb for rb, rt in m.calls() if rt.get("f") is not None and F.inst[rt["f"]].defp.startswith("signal_hook_registry::register") and not m.blocks[rb].get("dead")]
+        if probes and regs_ and sf:
+            errno_calls = {bb2 for bb2, t2 in m.calls() if re.search(r"(last_os_error|errno_location|__errno)", (t2.get("def") or "") + str(F.inst[t2["f"]].symbol if t2.get("f") is not None else ""))}
+            src_calls = set(probes) | errno_calls
+            accept = set(); ntests = 0
+            for (b2, tgt, lab, exprs, t2) in _swe(m):
+                if m.blocks[b2].get("dead"):
+                    continue
+                for e in exprs:
+                    e = deep_strip(e)
+                    d_ = deps(m, [e])
+                    if not any(("call", c_) in d_ for c_ in src_calls):
+                        continue
+                    ntests += 1
+                    if e[0] == "binop" and e[1] in ("Eq", "Ne"):
+                        val = int(lab[3:]) if lab.startswith("sw:") else None
+                        is_true = (val is not None and val != 0) or (val is None and [v_ for v_, _ in t2["vals"]] == [0])
+                        if (e[1] == "Eq") == is_true:
+                            accept.add((b2, tgt))
+                    elif e[0] == "binop":
+                        accept.add((b2, tgt))           # an ordering test (`res >= 0`): either side counts as explicit
+                    elif e[0] == "call" and t2.get("dty") == "bool":
+                        nm_ = e[3] or ""
+                        val = int(lab[3:]) if lab.startswith("sw:") else None
+                        is_true = (val is not None and val != 0) or (val is None and [v_ for v_, _ in t2["vals"]] == [0])
+                        if nm_.endswith("::eq") or "PartialEq" in nm_ and nm_.endswith("eq"):
+                            if is_true:
+                                accept.add((b2, tgt))   # `kind == ErrorKind::WouldBlock` through PartialEq
+                        elif nm_.endswith("::ne"):
+                            if not is_true:
+                                accept.add((b2, tgt))
+                        else:
+                            accept.add((b2, tgt))       # an opaque predicate: polarity unknown, both sides count as explicit (no verdict from it)
+                    elif lab.startswith("sw:"):
+                        accept.add((b2, tgt))           # a value edge of a match on the outcome
+            sfb_ = {b for b, _ in sf}
+            bad_ = []
+            from .. import inline as _inl
+            m2_ = _inl.assuming(F, m, accept) if accept else m       # accepting edges assumed away, constants (the chosen method) folded again
+            for pb in probes:
+                if m2_.blocks[pb].get("dead"):
+                    continue
+                for st0 in m2_.succ(pb, unwind=False):
+                    r_ = cfg.reachable(m2_, st0, avoid=sfb_, unwind=False) if st0 not in sfb_ else set()
+                    hit = sorted(b for b in set(regs_) & r_ if not m2_.blocks[b].get("dead"))
+                    if hit:
+                        bad_.append([m2_.term(x)["sp"].split("/")[-1] for x in (cfg.path(m2_, st0, hit[0], avoid=sfb_, unwind=False) or [])][:8])
+            res.append((not bad_ and ntests > 0, "probe-accept-list@%s" % keyname(m0.name),
+                        "skipping the O_NONBLOCK switch (and its validation of the descriptor) is decided by explicit equality tests of the probe's outcome, "
+                        "not by a catch-all", m.term(probes[0])["sp"], {"tests_of_the_probe_outcome": ntests, "registration_reached_by_catch_all": bad_[:2]}))
         clos = [(cb, csi, crv) for (cb, csi, crv) in closure_constructions(m) if crv["def"] in action_defs]
         if not clos:
             raise AnchorLost("the action closure registered by %s" % m0.name)
